@@ -250,6 +250,11 @@ func c10Criteria(env *core.Env, cc *c10Coll, cv fhirpath.EvaluateOption, expectI
 		if !ea.IsPanic() && !eb.IsPanic() && !(ea.IsError() && eb.IsError()) && !fx.Same(ea, eb) {
 			env.Violatef("C10/exists-criterion/differs-from-where-exists", "%s: `%%c.exists(%s)` = %s but `%%c.where(%s).exists()` = %s", cc.Desc, fs, trunc(ea.Short(), 80), fs, trunc(eb.Short(), 80))
 		}
+		aa := c10Eval(env, "%c.all("+fs+")", cv)
+		ab := c10Eval(env, "%c.where("+fs+").count() = %c.count()", cv)
+		if !aa.IsPanic() && !ab.IsPanic() && !aa.IsError() && !ab.IsError() && !fx.Same(aa, ab) {
+			env.Violatef("C10/all/differs-from-where-count", "%s: `%%c.all(%s)` = %s but `%%c.where(%s).count() = %%c.count()` = %s", cc.Desc, fs, trunc(aa.Short(), 80), fs, trunc(ab.Short(), 80))
+		}
 		env.Cover("all")
 		expectBool("all", "%c.all("+fs+".exists())", all)
 		expectBool("all", "%c.all("+fs+".empty())", len(with) == 0)
